@@ -1107,7 +1107,12 @@ func allInstrsOne(fn *ssa.Function, f func(ssa.Instruction)) {
 
 // mustHoldChain: like mustHoldDeep for an arbitrary instruction.
 func (p *Prog) mustHoldChain(in ssa.Instruction, chain []Site) dnf {
-	cur := p.mustHoldAt(in)
+	return p.liftChain(p.mustHoldAt(in), chain)
+}
+
+// liftChain: a condition of the innermost function of chain, rewritten into the anchor function's terms and conjoined with
+// the conditions of the calls of the chain.
+func (p *Prog) liftChain(cur dnf, chain []Site) dnf {
 	// an instruction inside a closure: conjoin nothing for the closure boundary (conditions of the enclosing function at
 	// the closure's creation are not known to hold when it runs)
 	for i := len(chain) - 1; i >= 0; i-- {
